@@ -180,3 +180,11 @@ def rules(t, *a, **kw):
     out = _rules_C04_sw(t, *a, **kw)
     out.append(W5.size_window(t, "C04.l"))
     return out
+
+
+_rules_C04_bw = rules
+def rules(t, *a, **kw):
+    import rules.bytewidth as BW
+    out = _rules_C04_bw(t, *a, **kw)
+    out.append(BW.byte_width_rule(t, "C04.m"))
+    return out
